@@ -468,3 +468,136 @@ func init() {
 		Doc: "a container used as its own operand: in list slice assignment every read of the operand sequence (a call taking it as argument) lies before the first change of the receiver's storage in the same branch, so `L[a:b] = L` and `L[a:b] = iter(L)` see the old items",
 		Run: runOperandBeforeMutation})
 }
+
+// ---- C13.R7: __ne__ is the complement of __eq__ ----
+
+func runNeComplementsEq(c *Ctx, r *Rep) {
+	p := c.MustPkg("py")
+	types_ := map[string]bool{}
+	for _, file := range c.Files(p) {
+		for _, d := range file.Decls {
+			fd, ok := d.(*ast.FuncDecl)
+			if ok && fd.Recv != nil && fd.Name.Name == "M__ne__" {
+				types_[strings.TrimPrefix(exprStr(fd.Recv.List[0].Type), "*")] = true
+			}
+		}
+	}
+	var names []string
+	for t := range types_ {
+		names = append(names, t)
+	}
+	sort.Strings(names)
+	n := 0
+	for _, t := range names {
+		if c.MethodDecl("py", t, "M__eq__") == nil {
+			continue
+		}
+		// __ne__ written as a function of __eq__ is complementary by construction
+		if nd := c.MethodDecl("py", t, "M__ne__"); nd != nil {
+			callsEq := false
+			ast.Inspect(nd.Body, func(m ast.Node) bool {
+				if call, ok := m.(*ast.CallExpr); ok {
+					if sel, ok := call.Fun.(*ast.SelectorExpr); ok && sel.Sel.Name == "M__eq__" {
+						callsEq = true
+					}
+				}
+				return true
+			})
+			if callsEq {
+				r.okTrivial("necomp|py."+t+"|delegates", nd.Pos(), "__ne__ is computed from __eq__")
+				continue
+			}
+		}
+		prim := []string{"py.NewBool"}
+		eq, und1, pos := pathTable(c, tableSpec{key: "py|" + t + ".M__eq__", show: []string{"*"}, prim: prim})
+		ne, und2, _ := pathTable(c, tableSpec{key: "py|" + t + ".M__ne__", show: []string{"*"}, prim: prim})
+		id := "py." + t
+		if len(und1) > 0 || len(und2) > 0 {
+			r.okTrivial("necomp|"+id+"|shape", pos, "one of the two methods is not interpretable as a decision table (loops over elements); not covered")
+			continue
+		}
+		// __ne__ delegating to __eq__ renders as a call; skip those (decided by construction)
+		deleg := false
+		for _, row := range ne {
+			if strings.Contains(row, "M__eq__(") {
+				deleg = true
+			}
+		}
+		if deleg {
+			r.okTrivial("necomp|"+id+"|delegates", pos, "__ne__ is computed from __eq__")
+			continue
+		}
+		flip := func(rows []string) []string {
+			var out []string
+			for _, row := range rows {
+				// NewBool(X) <-> NewBool(not X)
+				if i := strings.Index(row, "NewBool("); i >= 0 {
+					j := i + len("NewBool(")
+					depth, k := 1, j
+					for ; k < len(row) && depth > 0; k++ {
+						if row[k] == '(' {
+							depth++
+						} else if row[k] == ')' {
+							depth--
+						}
+					}
+					arg := row[j : k-1]
+					row = row[:j] + negText(arg) + row[k-1:]
+				}
+				row = strings.ReplaceAll(row, "-> True,", "-> \x00,")
+				row = strings.ReplaceAll(row, "-> False,", "-> True,")
+				row = strings.ReplaceAll(row, "-> \x00,", "-> False,")
+				out = append(out, row)
+			}
+			sort.Strings(out)
+			return out
+		}
+		want := flip(eq)
+		got := append([]string(nil), ne...)
+		sort.Strings(got)
+		// receiver/parameter names may differ between the two methods: compare modulo the first two identifiers? they are the same in this code base
+		miss, extra := diffSets(want, got)
+		n++
+		r.analysed("(" + id + ").M__ne__")
+		if len(miss) == 0 && len(extra) == 0 {
+			r.ok("necomp|"+id, pos, "__ne__ decides by the same conditions as __eq__ with the answers exchanged (%d paths)", len(got))
+		} else {
+			r.bad("necomp|"+id, pos, "__ne__ of %s is not the complement of its __eq__: for some operands both (or neither) hold. Paths of __eq__ with the answer exchanged that __ne__ lacks: %s; paths only __ne__ has: %s", id, strings.Join(clip(miss, 3), " ; "), strings.Join(clip(extra, 3), " ; "))
+		}
+	}
+	if n == 0 {
+		r.undecided("necomp|sites", token.NoPos, "no type with interpretable __eq__ and __ne__ found")
+	}
+}
+
+func init() {
+	register(&Rule{ID: "C13.R7", Prop: "C13", Floor: 3,
+		Doc: "for every type of package py that defines both, the decision table of M__ne__ equals that of M__eq__ with True and False exchanged (sibling agreement by symbolic path enumeration; element-wise loops are out of scope)",
+		Run: runNeComplementsEq})
+}
+
+// negText negates a rendered boolean expression textually: == <-> != at the top level, leading ! removed or added.
+func negText(e string) string {
+	depth := 0
+	for i := 0; i+4 <= len(e); i++ {
+		switch e[i] {
+		case '(':
+			depth++
+		case ')':
+			depth--
+		}
+		if depth == 0 && strings.HasPrefix(e[i:], " == ") {
+			return e[:i] + " != " + e[i+4:]
+		}
+		if depth == 0 && strings.HasPrefix(e[i:], " != ") {
+			return e[:i] + " == " + e[i+4:]
+		}
+	}
+	if strings.HasPrefix(e, "!(") && strings.HasSuffix(e, ")") {
+		return e[2 : len(e)-1]
+	}
+	if strings.HasPrefix(e, "!") {
+		return e[1:]
+	}
+	return "!" + e
+}
